@@ -20,7 +20,7 @@ import (
 
 // op is one step of the client script.
 type op struct {
-	K    string `json:"k"` // syn data wu rst settings ping sync settle gate gatenow headers synreply goaway unknown waitdone
+	K    string `json:"k"` // syn data wu rst settings ping sync settle gate gatenow headers synreply goaway unknown waitdone bcmark bcend
 	ID   uint32 `json:"id,omitempty"`
 	Tok  int    `json:"tok,omitempty"`
 	Fin  bool   `json:"fin,omitempty"`
@@ -59,6 +59,7 @@ type caseResult struct {
 	Nontrivial  bool
 	EndState    *bfe_spdy.VerifConnEnd
 	HandlerInfo map[int]string
+	BC          bcState // body-close cases (c40close.go)
 }
 
 type labeledConn struct {
@@ -321,6 +322,8 @@ func runCase(spec *caseSpec) *caseResult {
 			werr = conn.GoAway(o.ID, uint32(o.N))
 		case "unknown":
 			werr = conn.UnknownControl(uint16(o.N), []byte{0, 0, 0, 1})
+		case "bcmark", "bcend":
+			bodyCloseOp(conn, model, cs, o, &res.BC)
 		case "waitdone":
 			if !conn.WaitUntil(waitBrief, func() bool {
 				d, _, _, _ := cs.Done(o.Tok)
@@ -508,6 +511,7 @@ func runCase(spec *caseSpec) *caseResult {
 	conn.Locked(func() {
 		model.Finish(facts)
 		res.Viol = append(res.Viol, model.Viol...)
+		bodyCloseFinish(spec, model, healthy, allDone, &res.BC, res)
 		for k, v := range model.Obs {
 			res.Obs[k] += v
 		}
